@@ -205,11 +205,13 @@ struct RgnObs : public Observer {
     if (reason.empty() || !cur)
       return dflt;
     // known finding of the flat boolean domain (see heap.hpp): only the variants with a boolean base
-    if (HAS_BOOL && cur->stale_bool_link)
+    // (classifiers of repaired defects only win while their tag is switched on; otherwise the
+    // failure keeps its plain tag or falls to the next classifier)
+    if (HAS_BOOL && cur->stale_bool_link && R().is_known("flatbool_stale_bool_implication_after_redefinition"))
       return "flatbool_stale_bool_implication_after_redefinition";
-    if (HAS_BOOL && cur->stale_negated_copy)
+    if (HAS_BOOL && cur->stale_negated_copy && R().is_known("flatbool_negated_copy_keeps_old_constraint"))
       return "flatbool_negated_copy_keeps_old_constraint";
-    if (!cur->any_stale())
+    if (!cur->any_stale() || !R().is_known(stale_tag()))
       return dflt;
     if (reason.compare(0, 2, "M1") == 0)
       return stale_tag(); // a stale address made an assume_ref / ref constraint infeasible
@@ -246,9 +248,9 @@ struct RgnObs : public Observer {
         definite_null_answers++;
       if ((n3 == 1 && !is_null) || (n3 == 0 && is_null))
         need_where();
-      VCHECK(ctx, "C15", !(n3 == 1 && !is_null), stale ? stale_tag() : v.from_miscounted_region ? miscount_tag() : "rgn_is_null_wrong_true",
+      VCHECK(ctx, "C15", !(n3 == 1 && !is_null), (stale && R().is_known(stale_tag())) ? stale_tag() : v.from_miscounted_region ? miscount_tag() : "rgn_is_null_wrong_true",
              where << ": is_null_ref(" << to_str(r.v) << ") = true but the reference is " << v.str() << "; invariant " << to_str(d) << " heap " << h.str());
-      VCHECK(ctx, "C15", !(n3 == 0 && is_null), stale ? stale_tag() : v.from_miscounted_region ? miscount_tag() : "rgn_is_null_wrong_false",
+      VCHECK(ctx, "C15", !(n3 == 0 && is_null), (stale && R().is_known(stale_tag())) ? stale_tag() : v.from_miscounted_region ? miscount_tag() : "rgn_is_null_wrong_false",
              where << ": is_null_ref(" << to_str(r.v) << ") = false but the reference is null; invariant " << to_str(d) << " heap " << h.str());
       if (v.k != RefVal::Obj)
         continue;
